@@ -56,8 +56,8 @@ def rand_info(rng: random.Random, n: int, dense: bool) -> bytes:
     return bytes(rng.randrange(256) for _ in range(n))
 
 
-def item_frame(rng: random.Random, maxinfo: int | None = None, sizes=None, tag: int | None = None) -> dict:
-    dl, sl = rng.choice([1, 1, 1, 2, 3, 4]), rng.choice([1, 1, 2, 4])
+def item_frame(rng: random.Random, maxinfo: int | None = None, sizes=None, tag: int | None = None, addr=None) -> dict:
+    dl, sl = addr or (rng.choice([1, 1, 1, 2, 3, 4]), rng.choice([1, 1, 2, 4]))
     cap = 2047 - (2 + dl + sl + 1 + 2) - 2
     if maxinfo is not None:
         cap = min(cap, maxinfo)
@@ -287,6 +287,28 @@ def free_stream(rng: random.Random, cfg, budget: int = 400) -> bytes:
     return bytes(out)
 
 
+def special_check_octets(rng: random.Random, it: dict, want: str) -> dict:
+    """Vary the last information octets until a check sequence carries a flag/escape octet where it hurts:
+    want = "fcs_last" (last frame octet 0x7D or 0x7E), "fcs_first", "hcs" (an HCS octet is 0x7D/0x7E)."""
+    if not it["info"]:
+        it["info"] = [0, 0]
+    for _ in range(6000):
+        it["info"][-1] = rng.randrange(256)
+        if len(it["info"]) > 1:
+            it["info"][-2] = rng.randrange(256)
+        if want == "hcs":
+            it["ctrl"] = rng.randrange(256)
+        f = item_bytes(it)
+        hl = 2 + len(it["dst"]) + len(it["src"]) + 3
+        if (want == "fcs_last" and f[-1] in (FLAG, ESC)) or (want == "fcs_first" and f[-2] in (FLAG, ESC)) or \
+                (want == "hcs" and (f[hl - 1] in (FLAG, ESC) or f[hl - 2] in (FLAG, ESC))):
+            return it
+    return it
+
+
+_COMBOS = [(d, s_) for d in (1, 2, 3, 4) for s_ in (1, 2, 3, 4)]
+
+
 def clean_plan(rng: random.Random, cfg, nframes_: int, sizes=None, fresh_noise=True) -> list[dict]:
     plan = []
     if fresh_noise and rng.random() < 0.4:
@@ -295,7 +317,11 @@ def clean_plan(rng: random.Random, cfg, nframes_: int, sizes=None, fresh_noise=T
     plan.append(item_flags(rng.choice([1, 1, 2, 3, 5])))
     for _ in range(nframes_):
         for _try in range(50):
-            it = item_frame(rng, sizes=sizes)
+            # every combination of 1..4-octet addresses comes round; a fifth of the frames get a check sequence with a
+            # flag/escape octet in it (the reader's abort / stuffing / delimiter logic looks at exactly those places)
+            it = item_frame(rng, sizes=sizes, addr=_COMBOS[rng.randrange(16)] if rng.random() < 0.5 else None)
+            if rng.random() < 0.2 and (sizes is None):
+                it = special_check_octets(rng, it, rng.choice(["fcs_last", "fcs_first", "hcs"]))
             if in_domain_c02(cfg, it):
                 break
         else:
